@@ -279,15 +279,22 @@ realloc(void *ptr, size_t size) {
 		return (NULL);
 	}
 	p = vf_ini_alloc(size, 0);
-	/* old content: both objects have one of the two constant sizes of the model; copying
-	 * all of the smaller one is a superset of the min(old, new) bytes realloc preserves */
-	if (__CPROVER_OBJECT_SIZE(ptr) == VF_INI_RECSZ && __CPROVER_OBJECT_SIZE(p) == VF_INI_RECSZ) {
-		struct vf_rec { unsigned char b[VF_INI_RECSZ]; };
-		*(struct vf_rec *)p = *(const struct vf_rec *)ptr;
-	} else {
-		__CPROVER_assert(__CPROVER_OBJECT_SIZE(p) == VF_INI_TABLE,
-		    "realloc stub: line records stay line records");
-		__CPROVER_array_copy((unsigned char *)p, (const unsigned char *)ptr);
+	/* old content: every object of the model has one of three constant sizes; copying the
+	 * whole smaller object is a superset of the min(old, new) bytes realloc preserves */
+#define VF_COPY_BLK(n)								\
+	do {									\
+		struct vf_cb { unsigned char b[(n)]; };				\
+		*(struct vf_cb *)p = *(const struct vf_cb *)ptr;		\
+	} while (0)
+	if (__CPROVER_OBJECT_SIZE(ptr) == VF_INI_RECSZ && __CPROVER_OBJECT_SIZE(p) == VF_INI_RECSZ)
+		VF_COPY_BLK(VF_INI_RECSZ);
+	else if (__CPROVER_OBJECT_SIZE(ptr) == VF_INI_SMALLTABLE && __CPROVER_OBJECT_SIZE(p) == VF_INI_TABLE)
+		VF_COPY_BLK(VF_INI_SMALLTABLE);
+	else if (__CPROVER_OBJECT_SIZE(ptr) == VF_INI_TABLE && __CPROVER_OBJECT_SIZE(p) == VF_INI_TABLE)
+		VF_COPY_BLK(VF_INI_TABLE);
+	else {
+		__CPROVER_assert(0, "realloc stub: object sizes of the model");
+		__CPROVER_assume(0);
 	}
 	(void)old;
 	free(ptr);
